@@ -245,13 +245,13 @@ Definition replace_bytes (tbl : list (N * bytes)) (s : bytes) : bytes :=
 (* ------------------------------------------------------------------------------------------ *)
 (* objects *)
 
-Fixpoint obj_get (m : list (bytes * jv)) (k : bytes) : option jv :=
+Fixpoint obj_get {A} (m : list (bytes * A)) (k : bytes) : option A :=
   match m with
   | [] => None
   | (k', v) :: r => if bytes_eqb k k' then Some v else obj_get r k
   end.
 
-Fixpoint obj_set (m : list (bytes * jv)) (k : bytes) (v : jv) : list (bytes * jv) :=
+Fixpoint obj_set {A} (m : list (bytes * A)) (k : bytes) (v : A) : list (bytes * A) :=
   match m with
   | [] => [(k, v)]
   | (k', v') :: r =>
@@ -263,7 +263,7 @@ Fixpoint obj_set (m : list (bytes * jv)) (k : bytes) (v : jv) : list (bytes * jv
   end.
 
 (* maps.Copy(dst, src) *)
-Definition obj_merge (dst src : list (bytes * jv)) : list (bytes * jv) :=
+Definition obj_merge {A} (dst src : list (bytes * A)) : list (bytes * A) :=
   fold_left (fun acc kv => obj_set acc (fst kv) (snd kv)) src dst.
 
 (* ------------------------------------------------------------------------------------------ *)
@@ -288,10 +288,11 @@ Fixpoint digits_val (d : bytes) (acc : Z) : Z :=
 (* optional sign: returns (negative?, had a sign?, rest) *)
 Definition take_sign (t : bytes) : bool * bool * bytes :=
   match t with
-  | 45%N :: r => (true, true, r)
-  | 43%N :: r => (false, true, r)
-  | _ => (false, false, t)
+  | c :: r => if N.eqb c 45 then (true, true, r) else if N.eqb c 43 then (false, true, r) else (false, false, t)
+  | [] => (false, false, t)
   end.
+(* strings.HasPrefix(t, "-") *)
+Definition starts_minus (t : bytes) : bool := match t with c :: _ => N.eqb c 45 | [] => false end.
 
 (* strconv.ParseInt(t, 10, 64) / big.Int.SetString(t, 10) syntax: [+-]? digit+ *)
 Definition int_text (t : bytes) : option Z :=
